@@ -248,3 +248,6 @@ CHECKS["C01"]["runs"] += [dict(wr("VerifKHuffGen", {}, {"NSYM": n, "LIMIT": lim,
                           for (n, lim, tiers) in [(4, 2, ["quick", "thorough"]), (4, 15, ["quick", "thorough"]), (5, 3, ["quick", "thorough"]), (5, 15, ["quick", "thorough"]),
                                                   (6, 3, ["thorough"]), (6, 4, ["thorough"]), (6, 15, ["thorough"])]]
 CHECKS["C01"]["assumptions"].append("Huffman code-length generation (LenLimitedCode.Generate incl. the unsafe sort, Moffat's algorithm and enforceMaxLen, then GenerateCode2) is decided for histograms with up to 5 (thorough: 6) symbolic 16-bit counts at limits 2..4 and 15: complete prefix code, lengths within the limit, no code for absent symbols; larger alphabets only through the concrete data of the operation sequences")
+
+CHECKS["C16"]["runs"] += [gz("VerifCtorLevels", {}, {}, ["C16:"], ["ran"])]
+CHECKS["C02"]["runs"] += [rd(0, 2, labels=["C02:", "REF:"], extra={"S": 1})]
